@@ -259,6 +259,77 @@ def stage_popen(ctx, stats, sigs):
         common.report(ctx, 'popen/read-fault', 'popen transport, read fault after the first chunk: the child wrote b"only-chunk\\n", delivered %r, EOF reported: %s' % (got, ended),
                       dict(script='one chunk, then os.read raises EIO once in the reader thread'))
 
+    # the application looks after its child between two reads - wait(), a liveness test - while the child's last output is still in the pipe
+    # (the child has exited, the reader thread has fetched only the first part): every byte is still delivered before EOF
+    import threading as _th
+
+    class GatedOs(object):
+        def __init__(self):
+            self.n = 0
+            self.second = _th.Event()
+            self.go = _th.Event()
+
+        def read(self, fd, k):
+            self.n += 1
+            if self.n == 2:
+                self.second.set()
+                self.go.wait(10)
+            return os.read(fd, k)
+
+        def __getattr__(self, name):
+            return getattr(os, name)
+    for between in ('wait', 'isalive', 'kill0', 'poll'):
+        gated = GatedOs()
+        saved_os = PO.os
+        PO.os = gated
+        try:
+            p = PO.PopenSpawn([common.PY, '-c', 'import sys; sys.stdout.write("x" * 5000); sys.stdout.flush()'], timeout=5)
+            gated.second.wait(5)                 # the first chunk is queued, the reader is about to fetch the second
+            for _ in range(2000):
+                if p.proc.poll() is not None or between == 'poll':
+                    break
+                time.sleep(0.001)
+            err = None
+            try:
+                if between == 'wait':
+                    p.wait()
+                elif between == 'isalive':
+                    p.isalive() if hasattr(p, 'isalive') else None
+                elif between == 'kill0':
+                    try:
+                        p.kill(0)
+                    except (OSError, ProcessLookupError):
+                        pass
+                else:
+                    p.proc.poll()
+            except Exception as e:      # noqa
+                err = type(e).__name__
+            gated.go.set()
+            got, t0, ended = b'', time.time(), False
+            while time.time() - t0 < 5:
+                try:
+                    got += p.read_nonblocking(4096, 0.05)
+                except pexpect.EOF:
+                    ended = True; break
+                except pexpect.TIMEOUT:
+                    continue
+                except Exception as e:      # noqa
+                    err = err or type(e).__name__; break
+            try:
+                p.proc.wait(); p.proc.stdout.close()
+            except Exception:
+                pass
+        finally:
+            gated.go.set()
+            PO.os = saved_os
+        sigs.add(('popen-between', between, ended))
+        stats['popen_between_reads'] = stats.get('popen_between_reads', 0) + 1
+        if got != b'x' * 5000 or not ended:
+            common.report(ctx, 'popen/lost-after-' + between, 'popen transport: the child wrote 5000 bytes and exited; after the first chunk the application called %s; '
+                          'delivered %d bytes, EOF reported: %s%s' % ({'wait': 'wait()', 'isalive': 'isalive()', 'kill0': 'kill(0)', 'poll': 'proc.poll()'}[between], len(got), ended,
+                                                                   (', ' + err) if err else ''),
+                          dict(script='child writes 5000 bytes and exits; reader thread held before its second read; %s; reader released' % between))
+
 
 def stage_volume(ctx, stats, sigs):
     """large outputs through the real transports, byte for byte"""
